@@ -60,6 +60,15 @@ pub fn run_export(case: &Value) -> Value {
             let r1 = circ.to_qasm(Some(&d));
             let on_disk = std::fs::read(d.join("circuit.qasm")).ok();
             res.insert("dir".into(), json!({"ok": r1.is_ok(), "returned_equal": r1.as_ref().ok() == Some(&s), "file_equal": on_disk.as_deref() == Some(s.as_bytes())}));
+            // a stale circuit.qasm of the SAME length (other content: every byte, and the last byte only), a shorter one, an empty one
+            let mut stale_ok = true;
+            let mut same_last = s.clone().into_bytes(); if let Some(b) = same_last.last_mut() { *b = if *b == b'#' { b'%' } else { b'#' }; }
+            for old in [vec![b'x'; s.len()], same_last, s.as_bytes()[..s.len() / 2].to_vec(), Vec::new()] {
+                std::fs::write(d.join("circuit.qasm"), &old).unwrap();
+                let r = circ.to_qasm(Some(&d));
+                stale_ok &= r.as_ref().ok() == Some(&s) && std::fs::read(d.join("circuit.qasm")).ok().as_deref() == Some(s.as_bytes());
+            }
+            res.insert("stale".into(), json!({"file_equal": stale_ok}));
             // missing path
             let r2 = circ.to_qasm(Some(root.join("missing")));
             res.insert("missing".into(), json!({"ok": r2.is_ok(), "io_error": matches!(r2, Err(quant_iron::errors::CompilerError::IOError(_))), "created": root.join("missing").exists()}));
